@@ -47,7 +47,7 @@ META = dict(
          "cdef() and read back through lib.X, integer_const, ctype.length/sizeof and bitsize in in-line, out-of-line "
          "ABI and API mode; each must equal the value gcc computes for the same text.  Expressions whose C evaluation "
          "is undefined are excluded by a typed evaluator that agrees with gcc on value and type of every other one.  "
-         "Duration: quick about 75 s, thorough about 6 min on the idle 16-core machine.",
+         "Duration: quick about 80 s, thorough about 5-6 min on the idle 16-core machine (20 min at load 80).",
     note="gcc 12 on this machine is the authority (int 32 bits, long 64 bits, plain char signed; >> of a negative "
          "value is arithmetic); signed << overflow, negative << and out-of-range shift counts are treated as undefined; "
          "a 'static const T NAME' mentioned in a later expression is given to gcc as the cast literal it stands for")
